@@ -652,8 +652,72 @@ class UsedCriteria(common.Suite):
         return f"{case['kind']}:{'storage' if case['in_storage'] else 'alone'}:{obs.get('outcome', 'exception').split()[0]}"
 
 
+class ReRegistration(common.Suite):
+    """rebuilt BY ITS REGISTERED NAME: a name registered a second time (a revised user class, a notebook cell run again) is
+    looked up afresh by every later from_dict — also when the name has already been looked up before. Oracle only."""
+
+    name = "re-registration"
+
+    def cases(self, rng, tier):
+        for kind in ("operation", "move", "criteria"):
+            for lookups_before in (0, 1, 3):
+                yield {"kind": kind, "lookups_before": lookups_before, "tag": rng.randrange(10**6)}
+
+    def real(self, case):
+        import numpy as np
+        import quansino.mc  # noqa: F401
+        from quansino.mc.criteria import CanonicalCriteria
+        from quansino.moves.displacement import DisplacementMove
+        from quansino.operations.composite import CompositeOperation
+        from quansino.operations.displacement import Ball, Box
+        from quansino.registry import register_class
+        from quansino.utils.moves import MoveStorage
+
+        name = f"VerifProbe{case['kind']}{case['tag']}"
+        kind = case["kind"]
+        if kind == "operation":
+            first, second = type("ProbeA", (Ball,), {}), type("ProbeB", (Box,), {})
+
+            def rebuild():
+                return type(CompositeOperation.from_dict({"name": "CompositeOperation", "kwargs": {
+                    "operations": [{"name": name, "kwargs": {"step_size": 0.1}}]}}).operations[0]).__name__
+        elif kind == "move":
+            first, second = type("ProbeA", (DisplacementMove,), {}), type("ProbeB", (DisplacementMove,), {})
+            probe = DisplacementMove(np.arange(2)).to_dict()
+
+            def rebuild():
+                d = MoveStorage(DisplacementMove(np.arange(2)), CanonicalCriteria(), 1, 1.0, 0).to_dict()
+                d["kwargs"]["move"] = {**probe, "name": name}
+                return type(MoveStorage.from_dict(d).move).__name__
+        else:
+            first, second = type("ProbeA", (CanonicalCriteria,), {}), type("ProbeB", (CanonicalCriteria,), {})
+
+            def rebuild():
+                d = MoveStorage(DisplacementMove(np.arange(2)), CanonicalCriteria(), 1, 1.0, 0).to_dict()
+                d["kwargs"]["criteria"] = {**CanonicalCriteria().to_dict(), "name": name}
+                return type(MoveStorage.from_dict(d).criteria).__name__
+        register_class(first, name)
+        seen = [rebuild() for _ in range(case["lookups_before"])]
+        register_class(second, name)
+        return {"before": seen, "after": rebuild()}
+
+    def oracle(self, case, obs):
+        if "exception" in obs:
+            return [(f"reregistration:{case['kind']}:exception:{obs['exception']}", obs.get("message", "") + obs.get("trace", "")[-300:])]
+        out = []
+        if any(x != "ProbeA" for x in obs["before"]):
+            out.append((f"reregistration:{case['kind']}:first-registration-not-used", str(obs)))
+        if obs["after"] != "ProbeB":
+            out.append((f"reregistration:{case['kind']}:stale-class-after-re-registration",
+                        f"the name was registered again, yet from_dict built {obs['after']} ({case['lookups_before']} look-ups before)"))
+        return out
+
+    def classify(self, case, obs):
+        return f"{case['kind']}:{case['lookups_before']}"
+
+
 def suites(tier):
-    return [RoundTrip(), ImportFirst(), UsedCriteria()]
+    return [RoundTrip(), ImportFirst(), UsedCriteria(), ReRegistration()]
 
 
 def extra_coverage(res):
